@@ -61,7 +61,7 @@ int Logger::operator()()
 {
    unsigned received(0);
 
-   while (!_stopping)
+   for (;;)	// runs until the empty element enqueued by stop() is taken off the queue, so that every line queued before it is written
    {
 		LogElement *msg_ptr(0);
 
